@@ -11,7 +11,7 @@ variable {cfg : Cfg}
 /-- Known (literal) part of a portion. -/
 def litVal : PortionE → Rat
   | .lit t =>
-    match parsePortionSpecific t with
+    match parsePortionGo t with
     | .ok (.specific r) => r
     | _ => 0
   | _ => 0
@@ -134,7 +134,7 @@ theorem evalPortions_spec {env : Env} (henv : EnvGood env) :
           split at hv
           · rename_i q hq
             cases hv
-            obtain ⟨r, rfl⟩ := parsePortionSpecific_specific hq
+            obtain ⟨r, rfl⟩ := parsePortionGo_specific hq
             simp only [countRemaining, remCount, specificTotal, litSum, litVal, hq, hasVarP]
             exact ⟨i1, fun hnv => by rw [i2 hnv]⟩
           · cases hv
